@@ -15,6 +15,7 @@ import (
 	"reflect"
 	"sort"
 	stdsync "sync"
+	"sync/atomic"
 )
 
 var (
@@ -124,4 +125,26 @@ func SelectPerm(site string, n int) []int {
 	h := fnv.New64a()
 	h.Write([]byte(site))
 	return rand.New(rand.NewSource(int64(sd ^ h.Sum64() ^ 0x5e1ec7))).Perm(n)
+}
+
+// ---- reach probes: simgen puts Hit(i) at the entry of function i of the simulated packages
+
+var hits [4096]uint32
+
+// Hit counts an entry of function i.
+func Hit(i int) {
+	if i < len(hits) {
+		atomic.AddUint32(&hits[i], 1)
+	}
+}
+
+// HitSet returns the indices of the functions entered so far (since process start).
+func HitSet() []int {
+	var out []int
+	for i := range hits {
+		if atomic.LoadUint32(&hits[i]) > 0 {
+			out = append(out, i)
+		}
+	}
+	return out
 }
